@@ -556,9 +556,19 @@ async fn batch(zone: &Zone, c: &mut Content, h: &mut Hist, names: &[String], spe
                     note(h, r);
                     let (ttl, rds) = cur.get(&(r.owner.clone(), r.rtype)).cloned().unwrap();
                     let rrset = rrset_of(r.rtype, ttl, &rds, &r.owner);
-                    match node_for(root.as_ref(), &r.owner, h).await {
-                        Some(n) => n.update_rrset(rrset).await.expect("update_rrset"),
-                        None => root.update_rrset(rrset).await.expect("update_rrset"),
+                    let node = node_for(root.as_ref(), &r.owner, h).await;
+                    let n: &dyn WritableZoneNode = match &node {
+                        Some(n) => n.as_ref(),
+                        None => root.as_ref(),
+                    };
+                    n.update_rrset(rrset.clone()).await.expect("update_rrset");
+                    // The writer reads its own writes.
+                    match n.get_rrset(r.rtype).await {
+                        Ok(Some(got)) if got.ttl() == rrset.ttl() && got.data().len() == rrset.data().len() && got.data().iter().all(|d| rrset.data().contains(d)) => {}
+                        other => {
+                            sim::violation(P8, "write-interface", "get-rrset-differs-from-what-was-written".to_string(), format!("after update_rrset({} {}) the same writer's get_rrset returned {:?}", r.owner, r.rtype, other.map(|o| o.map(|x| x.data().len()))));
+                            return;
+                        }
                     }
                 }
                 Op::Del(r) => {
@@ -572,7 +582,13 @@ async fn batch(zone: &Zone, c: &mut Content, h: &mut Hist, names: &[String], spe
                     };
                     match cur.get(&(r.owner.clone(), r.rtype)).cloned() {
                         Some((ttl, rds)) => n.update_rrset(rrset_of(r.rtype, ttl, &rds, &r.owner)).await.expect("update_rrset"),
-                        None => n.remove_rrset(r.rtype).await.expect("remove_rrset"),
+                        None => {
+                            n.remove_rrset(r.rtype).await.expect("remove_rrset");
+                            if let Ok(Some(left)) = n.get_rrset(r.rtype).await {
+                                sim::violation(P8, "write-interface", "get-rrset-after-remove".to_string(), format!("after remove_rrset({} {}) the same writer's get_rrset still returns {} records", r.owner, r.rtype, left.data().len()));
+                                return;
+                            }
+                        }
                     }
                 }
                 Op::DelName(o, _) => {
